@@ -155,10 +155,17 @@ func c14Unit(c *core.Ctx, e *cat.Strat, cfg []float64, withCols bool) {
 					cs["dates"] = "the first two and the last two snapshots carry the same date"
 				}
 			case 2:
-				for i := n / 2; i < n; i++ {
-					snaps[i].Date = snaps[i].Date.AddDate(0, 0, 2)
+				// local midnights of an exchange east of Greenwich (the calendar day of a snapshot is the day in ITS zone),
+				// with a weekend gap in the middle
+				jst := time.FixedZone("JST", 9*3600)
+				for i := 0; i < n; i++ {
+					d := snaps[i].Date
+					if i >= n/2 {
+						d = d.AddDate(0, 0, 2)
+					}
+					snaps[i].Date = time.Date(d.Year(), d.Month(), d.Day(), 0, 0, 0, 0, jst)
 				}
-				cs["dates"] = "two-day gap in the middle"
+				cs["dates"] = "local midnights at UTC+9, two-day gap in the middle"
 			}
 			// reference material from the real Compute
 			base := RunStrategy(e.New(cfg), snaps, 0, mc.Options{})
